@@ -39,6 +39,18 @@ LinkDiv(a)   == Pl("div", a, <<LinkA, LinkA, LinkA, LinkA>>)
 SparseP      == Pl("p", "", <<Tx, LinkA, Tx>>)
 LinkBlocks == {LinkList(""), LinkList5(""), LinkDiv(""), LinkList("class:content"), SparseP}
 
+\* excludable children for mixed content (one cost unit each): a nested list / div / section /
+\* table / nav / aside that some mode may exclude - by vocabulary class, landmark role, element
+\* kind, or link density
+PItem == Pl("li", "", <<Tx>>)
+PPar  == Pl("p", "", <<Tx>>)
+ExclKids == {Pl("ul", "class:menu", <<PItem>>), Pl("ol", "role:navigation", <<PItem>>), LinkList(""),
+             Pl("nav", "", <<PPar>>), Pl("aside", "", <<Tx>>), Pl("div", "class:sidebar", <<PPar>>),
+             Pl("section", "id:footer", <<Tx>>),
+             Pl("table", "class:widget", <<Row(<<Pl("td", "", <<Tx>>)>>)>>)}
+
+KidsQ == {Pl("ul", "class:menu", <<PItem>>), Pl("ol", "role:navigation", <<PItem>>), LinkList(""), Pl("div", "class:sidebar", <<PPar>>)}
+
 \* ---- free elements ----------------------------------------------------------
 Boxes(attrs) == {E(t, a) : t \in {"div", "section"}, a \in attrs} \cup
                 {E(t, "") : t \in {"nav", "aside", "header", "footer", "blockquote"}}
@@ -49,7 +61,8 @@ FullAlphabet ==
     {E(t, a) : t \in {"div", "section", "ul", "ol", "p", "li", "blockquote"},
                a \in PlainAttrs \cup VocabAttrs \cup NearAttrs \cup RoleHints}
     \cup {E(t, "") : t \in {"nav", "aside", "header", "footer", "pre", "a", "br"} \cup Headings}
-    \cup Tables \cup LinkBlocks \cup {Script}
+    \cup Tables \cup LinkBlocks \cup {Script} \cup ExclKids
+    \cup {E(t, "") : t \in {"dl", "dt", "dd", "figure", "figcaption", "details", "summary"}}
 
 AlphaSet ==
     CASE Alpha = "q1" ->  \* everything structural, few attributes
@@ -69,6 +82,19 @@ AlphaSet ==
            {E("ul", ""), E("ol", ""), E("li", ""), E("div", ""), E("p", "")}
       [] Alpha = "q7" ->  \* the attribute dimension: every generated class / id combination on a box
            {E("div", a) : a \in PlainAttrs \cup VocabAttrs \cup NearAttrs} \cup {E("p", "")}
+      [] Alpha = "q8" ->  \* mixed content: text before / after / between excludable children in li, div, td, blockquote
+           {E("ul", ""), E("li", "")} \cup KidsQ
+      [] Alpha = "q8b" ->  \* ... in div, blockquote, td
+           {E("div", ""), E("blockquote", ""), T11} \cup KidsQ
+      [] Alpha = "t8" ->
+           {E("ul", ""), E("li", "")} \cup ExclKids
+      [] Alpha = "t8b" ->
+           {E("div", ""), E("blockquote", ""), T11} \cup ExclKids
+      [] Alpha = "q9" ->  \* the same inside dt / dd, figcaption, summary / details
+           {E(t, "") : t \in {"dl", "dt", "dd", "figure", "figcaption", "details", "summary"}}
+           \cup {Pl("ul", "class:menu", <<PItem>>), Pl("nav", "", <<PPar>>)}
+      [] Alpha = "t9" ->
+           {E(t, "") : t \in {"dl", "dt", "dd", "figure", "figcaption", "details", "summary"}} \cup KidsQ
       [] Alpha = "t2" ->  \* thorough: the whole attribute vocabulary on one box kind
            \* (the whole attribute table is enumerated by q7 / t7; here every role and a sample of it)
            {E("div", a) : a \in RoleHints \cup {"", "class:content", "role:main", "class:nav", "id:menu", "class:top menu",
